@@ -65,6 +65,13 @@ func (k msgServer) UpdatePaymentAddress(goCtx context.Context, msg *types.MsgUpd
 				return nil, types.ErrInvalidAccountId
 			}
 
+			// the kid index is keyed by the address string: accept only the canonical spelling of the creator's
+			// address, otherwise the same account (e.g. in upper-case bech32) could be linked to a second key did
+			if acc, err := sdk.AccAddressFromBech32(msg.Creator); err != nil || acc.String() != caip10.Address {
+				logger.Error("payment address is not in canonical form", "creator", msg.Creator, "accountId", msg.AccountId)
+				return nil, types.ErrInvalidAccountId
+			}
+
 			if kid, found := k.GetKid(ctx, caip10.Address); found {
 				logger.Error("creator has been bound to a kid", "creator", msg.Creator, "kid", kid.Kid)
 				return nil, types.ErrKidExist
